@@ -7,14 +7,15 @@ RULE = ("outdim/tjcrop: dimension formula and region validation compared with th
         "baseline/progressive/arithmetic, every delivered row compared with a full decode (oracle on the real decoder); "
         "skipst: the counters of the read/skip state machine (output_scanline, output_iMCU_row, buffer_full, rowgroup_ctr, next_row_out, "
         "rows_to_go, return value), read through the repo's private headers after every call of such a history (incl. zero-row reads and "
-        "zero-row skips), compared with Model.SkipSM (separate upsampler) or Model.MergedSM (merged upsampler, spare_full in place of next_row_out) for every configuration "
-        "without context rows; "
+        "zero-row skips), compared with Model.SkipSM (separate upsampler), Model.MergedSM (merged upsampler, spare_full in place of next_row_out) or Model.CtxSM "
+        "(context rows: also context_state, whichptr, iMCU_row_ctr) - every upsampler configuration of the decoder; "
         "quanthist: the same histories with one-pass colour quantisation (no dithering); "
         "smoothhist: the same on progressive streams cut short inside the entropy-coded data with block smoothing active "
         "(decompress_smooth_data, DC-only and partly refined coefficients), crops with x offset 0 and > 0 and the right edge inside the image")
-TRUSTED = ["Model.DecompCtl covers the arithmetic; Model.SkipSM / Model.MergedSM are hand models of the read/skip state machine of jdapistd.c / jdmainct.c (simple main) / "
-           "jdsample.c (sep_upsample) / jdmerge.c (merged_1v/2v_upsample) for configurations without context rows, tied counter by counter by skipst; "
-           "the context-row state machine and the horizontal crop are not modelled (oracle on the real code); that a row's "
+TRUSTED = ["Model.DecompCtl covers the arithmetic; Model.SkipSM / Model.MergedSM / Model.CtxSM are hand models of the read/skip state machine of jdapistd.c / jdmainct.c (simple and "
+           "context main controller) / jdsample.c (sep_upsample) / jdmerge.c (merged_1v/2v_upsample), tied counter by counter by skipst; of the context-row "
+           "machine only the centre row group of every delivered row is modelled, not the neighbouring row groups read as context (funny pointers); "
+           "the horizontal crop is not modelled (oracle on the real code); that a row's "
            "pixels depend only on its provenance (iMCU row, row group, row) is not modelled either (oracle)"]
 ASSUMPTIONS = ["block smoothing is switched off in skiphist (complete streams never use it) and on in smoothhist (streams cut short)"]
 IMAX = 2147483647
@@ -168,12 +169,13 @@ MANIFEST = {
              "documented regions for all 32-bit arguments; and, over a model of the read/skip state machine (no context rows, separate "
              "upsampler) whose counters are compared with the real structures after every call: after any history of read(n)/skip(n) calls "
              "every delivered row is the row group and row of the iMCU row its scanline names, two histories deliver rows of the same "
-             "provenance at the same scanline, a read makes progress, a skip is honoured exactly. For context-row and merged upsampling, "
-             "the horizontal crop and the pixel values themselves the clause is decided by an oracle on the real decoder over generated "
-             "histories (partial)."),
+             "provenance at the same scanline, a read makes progress, a skip is honoured exactly. The same is proved for the context-row machine (centre row group) and the merged 1:1 machine; for the "
+             "merged 2:1 machine for every history that avoids known finding D16, which is itself a kernel-evaluated theorem about the tied model. "
+             "For the context neighbours, the horizontal crop and the pixel values themselves the clause is decided by an oracle on the real "
+             "decoder over generated histories (partial)."),
     "design_ref": "DESIGN.md 6.8",
     "note": ("Trusted: Lean kernel; axioms propext, Quot.sound, Classical.choice; arithmetic model tied by outdim/tjcrop ops; the read/skip "
-             "state machine is modelled and tied (skipst) for the simple main controller + separate upsampler; the context-row main controller "
-             "and jdmerge.c are NOT modelled: there the clause rests on the oracle."),
+             "state machine is modelled and tied (skipst) for all three upsampler configurations (separate, merged, context rows); which "
+             "neighbouring rows the fancy upsampler reads, the crop and the pixel arithmetic are NOT modelled: there the clause rests on the oracle."),
     "technique": "Lean 4 proof (omega over the dimension/crop/validation arithmetic; invariant by induction over read/skip histories of a state-machine model tied to the real counters) + history oracle on the real decoder",
 }
